@@ -2005,7 +2005,7 @@ handshake_switch_codec(int dns_fd, int bits)
 				fprintf(stderr, "Server rejected the selected codec. ");
 				goto codec_revert;
 			}
-			in[read] = 0; /* zero terminate */
+			in[MIN(read, (int) sizeof(in) - 1)] = 0; /* zero terminate */
 			fprintf(stderr, "Server switched upstream to codec %s\n", in);
 			dataenc = tempenc;
 			return;
@@ -2059,7 +2059,7 @@ handshake_switch_downenc(int dns_fd)
 				fprintf(stderr, "Server rejected the selected codec. ");
 				goto codec_revert;
 			}
-			in[read] = 0; /* zero terminate */
+			in[MIN(read, (int) sizeof(in) - 1)] = 0; /* zero terminate */
 			fprintf(stderr, "Server switched downstream to codec %s\n", in);
 			return;
 		}
